@@ -263,9 +263,7 @@ def impl_eag(tmp, key, pt, kid, halg, kw="direct"):
     """cmd_encrypt.main(encrypt-and-generate) in this process: the files written, as {name: bytes}."""
     kd = write_key(tmp, key)
     out = fresh_dir(tmp, "out")
-    fw = os.path.join(tmp, "fw.bin")
-    with open(fw, "wb") as fh:
-        fh.write(pt)
+    fw = core.tricky_file(tmp, "fw.bin", pt, decoy=b"not the firmware")        # named through a linked directory and back
     try:
         _cmd().main(encrypt_subcommand="encrypt-and-generate", encrypt_script=enc_script(), firmware=fw, key_name=KEY_NAME, key_id=kid,
                     context=kd, hash_alg=halg, kw_alg=kw, kms_script=kms_script(), output_dir=out)
